@@ -9,7 +9,7 @@ G (+M): spec/TypeMatch.tla defines `Matches(ty, v)` from docs/types.md.  spec/Ge
    fixed tuples are `(int, str)`, only `tuple[T, ...]` is subscripted, a tuple on the left of `|` in
    expression position must be wrapped in eval_type()), cuts the table into chunks, runs
    harness/src/bin/vh_c16.rs on them in parallel and compares character by character.
-   The harness asks the real code ~37 ways per pair (see vh_c16.rs): isinstance (type in place / via
+   The harness asks the real code 40 ways per pair (see vh_c16.rs): isinstance (type in place / via
    alias), eval_type(T).matches, parameter / return annotation, annotated assignment (in a def, at top
    level), TypeCompiled::new(..).matches and .to_frozen(..).matches from Rust -- in the defining module,
    and after freezing it, from a module that load()s aliases, functions and values (frozen values and
@@ -25,6 +25,10 @@ import common as C
 
 PROP = "C16"
 BIN = "vh_c16"
+# one harness process per chunk; evaluating one more top-level statement costs time proportional to the
+# number of names already in the module, so small modules are cheaper overall (measured: 16 -> 0.13 s/type,
+# 100 -> 0.23 s/type)
+TYPES_PER_CHUNK = 16
 
 # ----------------------------------------------------------------------------- concrete syntax
 
@@ -141,6 +145,7 @@ REQUIRED_TYPES = [
     "dict[str, list[int]]", "dict", "set[int]", "set[str]", "set[typing.Any]", "set", "set[int | str]",
     "typing.Callable", "typing.Iterable", "typing.Never", "typing.Any", "None", "bool", "int", "float", "str",
     "R1", "R2", "E1", "E2",
+    "list[int] | list[str]", "dict[str, int] | dict[int, str]", "set[int] | set[str]", "(int,) | (str,)", "R1 | R2",
 ]
 
 
@@ -166,7 +171,8 @@ def generate(tier, wd):
     exp = [[None] * nv for _ in range(nt)]
     fam = [[None] * nv for _ in range(nt)]
     n = 0
-    pat = re.compile(r'^<<"P", (\d+), (\d+), (TRUE|FALSE), "(\w+)">>$')
+    deep = 0
+    pat = re.compile(r'^<<"P", (\d+), (\d+), (TRUE|FALSE), "(\w+)", (TRUE|FALSE)>>$')
     for line in r.out.splitlines():
         if not line.startswith('<<"P"'):
             continue
@@ -178,9 +184,13 @@ def generate(tier, wd):
             n += 1
         exp[ti][vi] = m.group(3) == "TRUE"
         fam[ti][vi] = m.group(4)
+        deep += m.group(5) == "TRUE"
     if n != nt * nv or r.distinct != nt * (nv + 1):
         raise C.ToolError("incomplete generation: %d pairs for %d types x %d values (%d states)"
                           % (n, nt, nv, r.distinct))
+    if deep * 20 < n:
+        raise C.ToolError("vacuous generation: only %d of %d pairs need to look inside the value" % (deep, n))
+    r.deep = deep
     return r, types, vals, exp, fam
 
 
@@ -329,7 +339,7 @@ def run(tier):
     stats = {"types_replayed": 0, "paths": {}}
     t1 = time.time()
     vals_src = replay_all(types, vals, exp, fam, list(range(len(types))), wd, tally, stats,
-                          nchunks=48 if tier == "quick" else 96)
+                          nchunks=(len(types) + TYPES_PER_CHUNK - 1) // TYPES_PER_CHUNK)
     C.log("[C16] harness: %d observations on %d paths in %.1fs" % (sum(stats["paths"].values()), len(stats["paths"]),
                                                                   time.time() - t1))
     if stats["types_replayed"] != len(types) and not verdict.violations:
@@ -337,8 +347,7 @@ def run(tier):
     if len(stats["paths"]) < 30 and not verdict.violations:
         raise C.ToolError("vacuous replay: only %d check paths observed" % len(stats["paths"]))
     npairs = len(types) * len(vals)
-    nontrivial = sum(1 for i, t in enumerate(types) if t["depth"] >= 1
-                     for v in vals if len(v["e"]) >= 1)
+    nontrivial = r.deep
     n_true = sum(1 for row in exp for x in row if x)
     samples = []
     for i in (len(types) // 3, len(types) // 2, len(types) - 7):
@@ -354,7 +363,8 @@ def run(tier):
         "rule": "TLC enumerates type expressions (tier %s: depth<=2 exhaustive over the argument sets of "
                 "Gen_TypeMatch.tla%s) x the value catalogue; expected = TypeMatch!Matches; every pair is asked on "
                 "every check path of vh_c16 in the defining module and through a frozen, loaded module; "
-                "non-trivial = type of depth>=1 against a value with elements" %
+                "non-trivial (TypeMatch!Deep) = the type has parameters and the value is of an outer kind the type admits, so "
+                "the answer depends on the elements" %
                 (tier, ", plus a seeded depth-3 sample" if tier == "thorough" else ""),
         "exhaustive": True,
         "types": len(types), "values": len(vals), "pairs": npairs, "pairs_expected_true": n_true,
